@@ -1474,6 +1474,9 @@ def _clear_unused_initializers(values: Sequence[ir.Value]) -> None:
     for value in values:
         if value is None or not value.is_initializer():
             continue
+        if value.is_graph_input():
+            # keep the default value of an overridable input
+            continue
 
         if (not value.uses()) and (not value.is_graph_output()):
             assert value.is_initializer()
